@@ -60,6 +60,12 @@ class Proxy:
         if name == "pi":
             return TFloat(_math.pi, T.PI)
         f = getattr(real, name)
+        if name in ("prod", "sum", "mod"):
+            def py_scalar(*a, **k):
+                # numpy scalars swallow float subclasses (np.float64 * TFloat -> np.float64): hand out Python scalars instead
+                r = f(*a, **k)
+                return r.item() if isinstance(r, (_np.integer, _np.floating)) else r
+            return py_scalar
         if name in SCALAR:
             sf = SCALAR[name]
             def wrapped(x, *a, **k):
